@@ -124,7 +124,7 @@ impl PoolUT for LockFree {
         Ok(Block { addr: p.as_ptr() as usize, size: self.1, ptr: Some(p.as_ptr() as usize), handle: None, pattern: 0 })
     }
     fn alloc_sel(&self, sel: usize) -> Result<Block, String> {
-        let size = LOCKFREE_SIZES[sel % LOCKFREE_SIZES.len()];
+        let size = if sel == usize::MAX - 1 { 12_000 } else { LOCKFREE_SIZES[sel % LOCKFREE_SIZES.len()] };
         let p = self.0.allocate(size).map_err(|e| e.to_string())?;
         Ok(Block { addr: p.as_ptr() as usize, size, ptr: Some(p.as_ptr() as usize), handle: None, pattern: 0 })
     }
@@ -201,7 +201,7 @@ impl PoolUT for Fixed {
         Ok(Block { addr: a.as_ptr() as usize, size: a.size(), ptr: Some(a.as_ptr() as usize), handle: Some(Box::new(a)), pattern: 0 })
     }
     fn alloc_sel(&self, sel: usize) -> Result<Block, String> {
-        let a = self.0.allocate(FIXED_SIZES[sel % 3]).map_err(|e| e.to_string())?;
+        let a = self.0.allocate(if sel == usize::MAX - 1 { 200 } else { FIXED_SIZES[sel % 3] }).map_err(|e| e.to_string())?;
         Ok(Block { addr: a.as_ptr() as usize, size: a.size(), ptr: Some(a.as_ptr() as usize), handle: Some(Box::new(a)), pattern: 0 })
     }
     fn quiescent_anomalies(&self) -> Vec<String> {
@@ -466,6 +466,56 @@ impl Claims {
 /// Thread body of the free-running cells: same operations, ownership through `Claims`
 /// (claimed after the pool handed the block out, released before it goes back: the claimed
 /// interval lies inside the owned interval, so two claims on one address are two owners).
+/// Exhaustion under contention (knob bit 4): threads 0 and 1 keep asking for the pool's largest
+/// block (refused once the pool is nearly full, given back at once when granted) while the
+/// others take small blocks and keep them until their first refusal.  Refused and granted
+/// requests interleave for as long as the large request no longer fits but small ones do.
+fn thread_body_exhaust(pool: Arc<dyn PoolUT>, sh: Arc<Shared>, claims: Arc<Claims>, me: usize, stop: Arc<AtomicBool>) {
+    let mut mine: Vec<Block> = vec![];
+    let take = |sel: usize, mine: &mut Vec<Block>| -> bool {
+        let Ok(b) = pool.alloc_sel(sel) else { return false };
+        if let Some(owner) = claims.claim(b.addr, me) {
+            sh.v("ownership", "block_shared", format!("thread {me} was handed block {:#x} (+{}) while thread {owner} still owns it (pool close to exhaustion, refused requests in flight)", b.addr, b.size));
+            sh.poisoned.store(true, Ordering::SeqCst);
+            std::mem::forget(b);
+            return false;
+        }
+        mine.push(b);
+        true
+    };
+    if me < 2 {
+        // hog: the largest size class, returned immediately
+        let mut n = 0u32;
+        while !stop.load(Ordering::Relaxed) && !sh.poisoned.load(Ordering::Relaxed) && n < 400_000 {
+            n += 1;
+            if take(usize::MAX - 1, &mut mine) {
+                let b = mine.pop().unwrap();
+                claims.release(b.addr);
+                let _ = pool.free(b);
+            }
+        }
+    } else {
+        let mut k = me;
+        while mine.len() < 4000 && !sh.poisoned.load(Ordering::Relaxed) {
+            k += 1;
+            if !take(k % 3, &mut mine) {
+                break;
+            }
+        }
+        stop.store(true, Ordering::SeqCst);
+    }
+    if sh.poisoned.load(Ordering::SeqCst) {
+        for b in mine.drain(..) {
+            std::mem::forget(b);
+        }
+    } else {
+        for b in mine.drain(..) {
+            claims.release(b.addr);
+            let _ = pool.free(b);
+        }
+    }
+}
+
 fn thread_body_fast(pool: Arc<dyn PoolUT>, sh: Arc<Shared>, claims: Arc<Claims>, me: usize, ops: Vec<Op>, loops: usize, mixed: bool) {
     let mut mine: Vec<Block> = vec![];
     let mut nth = me;
@@ -539,13 +589,19 @@ fn run_once_free(c: &Case, loops: usize) -> Result<Vec<(String, String, String)>
     for b in pre {
         let _ = pool.free(b);
     }
+    let exhaust = c.knob & 16 != 0 && c.threads.len() >= 3;
+    let stop = Arc::new(AtomicBool::new(false));
     let progs: Vec<Box<dyn FnOnce() + Send>> = c
         .threads
         .iter()
         .enumerate()
         .map(|(i, ops)| {
-            let (p, s, cl, ops) = (pool.clone(), sh.clone(), claims.clone(), ops.clone());
-            Box::new(move || thread_body_fast(p, s, cl, i, ops, loops, mixed)) as Box<dyn FnOnce() + Send>
+            let (p, s, cl, ops, st) = (pool.clone(), sh.clone(), claims.clone(), ops.clone(), stop.clone());
+            if exhaust {
+                Box::new(move || thread_body_exhaust(p, s, cl, i, st)) as Box<dyn FnOnce() + Send>
+            } else {
+                Box::new(move || thread_body_fast(p, s, cl, i, ops, loops, mixed)) as Box<dyn FnOnce() + Send>
+            }
         })
         .collect();
     sched::run_free(progs);
@@ -700,7 +756,7 @@ impl Prop for P {
         "C08"
     }
     fn rule(&self) -> &'static str {
-        "2-3 threads x 1-6 ops (alloc / free own block / hand a block to another thread) against one pool (secure, lock-free, five-level lock-free, five-level mutex, fixed-capacity, basic) with 0-3 pre-freed blocks, interleaved by a generated schedule consumed at the cfg(zipora_verif) yield points around every free-list head load / next read / CAS (random byte schedules + bounded-exhaustive <=2 forced switches for fixed programs). Oracle: global shadow map (no two live blocks overlap, pattern intact at free), drain at quiescence (each freed block reissued at most once, never a live one, none lost for LIFO pools), public counters add up. plus <pool>_free cells: the same programs looped 1500x on 2-6 real unscheduled OS threads (working set <= 24 blocks per thread), 2 fresh pools per case, ownership through a bucketed claim table (race windows that contain no yield point; non-trivial = >= 2 allocating threads). Non-trivial = a context switch taken at a yield point inside a pool operation; distinct by hash of (pool, programs, effective switch sequence)."
+        "2-3 threads x 1-6 ops (alloc / free own block / hand a block to another thread) against one pool (secure, lock-free, five-level lock-free, five-level mutex, fixed-capacity, basic) with 0-3 pre-freed blocks, interleaved by a generated schedule consumed at the cfg(zipora_verif) yield points around every free-list head load / next read / CAS (random byte schedules + bounded-exhaustive <=2 forced switches for fixed programs). Oracle: global shadow map (no two live blocks overlap, pattern intact at free), drain at quiescence (each freed block reissued at most once, never a live one, none lost for LIFO pools), public counters add up. plus <pool>_free cells: the same programs looped 1500x on 2-6 real unscheduled OS threads (working set <= 24 blocks per thread), 2 fresh pools per case, ownership through a bucketed claim table; with knob bit 4 and >= 3 threads instead: two threads keep requesting the largest block while the others fill the pool with small ones (refused and granted requests interleave), 12 fresh pools per case (race windows that contain no yield point; non-trivial = >= 2 allocating threads). Non-trivial = a context switch taken at a yield point inside a pool operation; distinct by hash of (pool, programs, effective switch sequence)."
     }
     fn assumptions(&self) -> Vec<String> {
         vec![
@@ -788,6 +844,10 @@ impl Prop for P {
                 }
                 if allocating >= 2 {
                     ctx.nontrivial();
+                }
+                let reps = if c.knob & 16 != 0 && c.threads.len() >= 3 { reps * 6 } else { reps };
+                if c.knob & 16 != 0 && c.threads.len() >= 3 {
+                    ctx.label("free_running_exhaustion_under_contention");
                 }
                 for _ in 0..reps {
                     match run_once_free(&c, loops as usize) {
